@@ -55,6 +55,7 @@ class ConnView:
         self.closed_t: float | None = None
         self.connected_seq: int | None = None
         self.fatals: list[tuple[int, float, BaseException]] = []
+        self.fatal_returns: list[tuple[int, float, str, bool]] = []  # state of the connection when report_fatal_error returned (or raised)
         self.fatal_sets: list[tuple[int, float, Any, Any]] = []     # every write of a non-None value to _fatal_exception: (seq, t, old, new)
         self.on_stop: list[tuple[int, float, Any]] = []
         self.graceful: list[tuple[int, str, Any]] = []           # (seq, kind, state at that moment)
@@ -395,6 +396,10 @@ class Sim:
         elif name == "_fatal_exception" and new is not None:
             v.fatal_sets.append((self.next_seq(), self.clock, old, new))
             self.log("fatal_set", v.idx, type(new).__name__)
+
+    def on_fatal_done(self, conn: Any, raised: bool) -> None:
+        v = self.view(conn)
+        v.fatal_returns.append((self.next_seq(), self.clock, conn.connection_state.name, raised))
 
     def on_fatal(self, conn: Any, err: BaseException) -> None:
         v = self.view(conn)
